@@ -57,6 +57,7 @@ type Instance struct {
 	OpaquePool          map[string]string
 	FormPool            map[string]int
 
+	SeenInputs     map[string]string
 	MaxWallS       float64
 	firstFindingAt int
 	StoppedEarly   bool
@@ -189,6 +190,12 @@ func (inst *Instance) Run(P *Program, solverName string, timeoutMs int, seed int
 		}
 		for w := range x.writes {
 			inst.Writes[w] = true
+		}
+		if inst.SeenInputs == nil {
+			inst.SeenInputs = map[string]string{}
+		}
+		for _, in := range x.inputs {
+			inst.SeenInputs[in.Name] = in.Kind
 		}
 		if inst.LogEvents && end.Kind == "done" {
 			inst.Events = append(inst.Events, x.events)
